@@ -71,6 +71,16 @@ def run_mem(case):
             cf.mem.mem_read_failed_cb.add_callback(lambda m, a, d: notes.append(('read-fail', m.id, a, bytes(d))))
             cf.mem.mem_write_cb.add_callback(lambda m, a: notes.append(('write-ok', m.id, a, None)))
             cf.mem.mem_write_failed_cb.add_callback(lambda m, a: notes.append(('write-fail', m.id, a, None)))
+            if case.get('retry_on_fail'):
+                # an application that tries again from inside the failure notification (once)
+                def retry(m, a):
+                    if not retried:
+                        retried.append((m.id, a))
+                        late_ = bool(env.world.fault_fired) or cf.link is None
+                        cf.mem.write(m, a, b'\x07\x08')
+                        issued.append({'op': 'write', 'mem': m.id, 'addr': a, 'len': 2, 'data': b'\x07\x08', 'accepted': True, 'maybe_superseded': late_})
+                cf.mem.mem_write_failed_cb.add_callback(retry)
+        retried = []
         attach()
         # ---- reply policy for the memory port
         memrep = {'n': 0}
@@ -366,7 +376,7 @@ def mem_case(draw):
         drop = {'k': draw(st.integers(1, 24)), 'reporter': draw(st.sampled_from(['driver', 'sender', 'driver-quiet']))}
     return {'sizes': sizes, 'ops': ops, 'needs_resending': resend,
             'policy': {'delays': delays, 'dups': dups, 'errors': errors, 'dup_gap': draw(st.sampled_from([0.0001, 0.002, 0.3]))},
-            'drop': drop, 'schedule': draw(_sched), 'asap': draw(st.booleans())}
+            'drop': drop, 'schedule': draw(_sched), 'asap': draw(st.booleans()), 'retry_on_fail': draw(st.sampled_from([False, False, True]))}
 
 
 def drop_sweep_cases(tier):
@@ -382,7 +392,7 @@ def drop_sweep_cases(tier):
         for rep in ('driver', 'sender', 'driver-quiet'):
             for k in range(1, 18 if tier == 'quick' else 30):
                 yield {'sizes': [128, 128], 'ops': h, 'needs_resending': False,
-                       'policy': {'delays': [], 'dups': [], 'errors': [], 'dup_gap': 0.001}, 'drop': {'k': k, 'reporter': rep},
+                       'policy': {'delays': [], 'dups': [], 'errors': [], 'dup_gap': 0.001}, 'drop': {'k': k, 'reporter': rep}, 'retry_on_fail': k % 2 == 0,
                        'schedule': {'prefix': [], 'seed': k, 'rate': 0.0}}
 
 
